@@ -15,7 +15,8 @@
  */
 
 use std::{cmp, thread};
-use std::fs::{self, canonicalize, create_dir_all, read_link, File, Metadata};
+use std::fs::{self, canonicalize, create_dir_all, read_link, File, Metadata, OpenOptions};
+use std::io::ErrorKind;
 use std::path::{Path, PathBuf};
 use std::sync::Arc;
 use std::sync::atomic::{AtomicBool, Ordering};
@@ -54,13 +55,26 @@ impl CopyHandle {
             return Err(XcpError::DestinationExists("Source and destination are the same file.", to.to_path_buf()).into());
         }
 
-        if needs_backup(to, config)? {
-            let backup = get_backup_path(to)?;
-            info!("Backup: Rename {:?} to {:?}", to, backup);
-            fs::rename(to, backup)?;
-        }
-
-        let outfd = File::create(to)?;
+        let outfd = if config.no_clobber {
+            // The walker has already refused every entry that existed
+            // when it looked. Anything at this path now appeared since
+            // (e.g. a link made for another source of the same name);
+            // never open, follow or rename it.
+            match OpenOptions::new().write(true).create_new(true).open(to) {
+                Ok(f) => f,
+                Err(e) if e.kind() == ErrorKind::AlreadyExists => {
+                    return Err(XcpError::DestinationExists("Destination file exists and --no-clobber is set.", to.to_path_buf()).into());
+                }
+                Err(e) => return Err(e.into()),
+            }
+        } else {
+            if needs_backup(to, config)? {
+                let backup = get_backup_path(to)?;
+                info!("Backup: Rename {:?} to {:?}", to, backup);
+                fs::rename(to, backup)?;
+            }
+            File::create(to)?
+        };
         allocate_file(&outfd, metadata.len())?;
 
         let handle = CopyHandle {
